@@ -15,6 +15,11 @@ package main
 //	                      the wall clock at the time the client was created.
 //	c19.xproc <fn>        draw once in each of two fresh processes: the values must differ.
 //	c19.reader            crypto/rand.Reader must still be the standard library's own reader.
+//	c19.peer <fn> <peer values> <k>   (c19peer.go) the secret drawn WITH values the peer chose (secure_random of
+//	                      account.password in every length / content class; unusual DH groups): bytes read, width,
+//	                      repetition, and which of the bytes read enter the secret.
+//	c19.retry <script> <k>   (c19retry.go) a scripted key-exchange server answers set_client_DH_params with
+//	                      dh_gen_retry / dh_gen_fail / dh_gen_ok: every g_b sent comes from a fresh full-width draw.
 //	c19.hist <fn> <prelude> <n>   (c19hist.go) unusual calls first, then ordinary draws: bytes read from the OS
 //	                      source per draw, range and repetition of the values.
 //
@@ -377,6 +382,12 @@ func c19Exec(op []string) string {
 	if out, ok := c19HistExec(op); ok {
 		return out
 	}
+	if out, ok := c19PeerExec(op); ok { // c19peer.go: the secret as a function of peer-supplied values
+		return out
+	}
+	if out, ok := c19RetryExec(op); ok { // c19retry.go: dh_gen_retry / dh_gen_fail answers
+		return out
+	}
 	line := strings.Join(op, " ")
 	num := func(s string) (int64, bool) {
 		v, err := strconv.ParseUint(s, 10, 62)
@@ -422,6 +433,16 @@ func c19Judge(op []string, out string) string {
 			return why
 		}
 	}
+	if len(op) > 0 && op[0] == "c19.peer" {
+		if why := c19PeerJudge(op, out); why != "" {
+			return why
+		}
+	}
+	if len(op) > 0 && op[0] == "c19.retry" {
+		if why := c19RetryJudge(op, out); why != "" {
+			return why
+		}
+	}
 	switch {
 	case out == "predictable":
 		return "key-agreement secret is reproducible: " + c19Detail[line]
@@ -439,6 +460,8 @@ func c19Gen(g *G) {
 	g.Emit("c19.reader", "reader")
 	// histories first: an operation of this kind that fails then fails on its own, in a fresh process too
 	c19HistGen(g)
+	c19RetryGen(g)
+	c19PeerGen(g)
 	seeds := []uint64{1}
 	for i := 0; i < g.N(1, 40); i++ {
 		seeds = append(seeds, g.R.U64()>>3)
